@@ -39,7 +39,8 @@ class SchedAbort(BaseException):
 
 class T:
     __slots__ = ('name', 'sem', 'state', 'pred', 'wake_at', 'done', 'prio',
-                 'steps', 'what', 'ident', 'exc', 'timeout_at', 'loc')
+                 'steps', 'what', 'ident', 'exc', 'timeout_at', 'loc',
+                 'blocked_time')
 
     def __init__(self, name, prio):
         self.name = name
@@ -53,6 +54,7 @@ class T:
         self.steps = 0
         self.what = ''
         self.loc = 'not-started'
+        self.blocked_time = 0.0   # virtual seconds spent unable to run
         self.exc = None
 
 
@@ -173,6 +175,12 @@ class Sched:
             if c == 'TICK':
                 nxt = min((t.wake_at if t.state == 'sleep' else t.timeout_at)
                           for t in timers)
+                dt = max(self.vnow, nxt) - self.vnow
+                if dt > 0:
+                    for t in self.order:
+                        if not t.done and (t.state == 'sleep' or (
+                                t.state == 'blocked' and t not in cands)):
+                            t.blocked_time += dt
                 self.vnow = max(self.vnow, nxt)
                 for t in timers:
                     if t.state == 'sleep' and t.wake_at <= self.vnow:
